@@ -29,7 +29,8 @@ func completeComment(raw string, atEnd bool) bool {
 		i := strings.IndexByte(raw, '\n')
 		return i == len(raw)-1 || (i < 0 && atEnd)
 	case strings.HasPrefix(raw, "/*"):
-		return len(raw) >= 4 && strings.HasSuffix(raw, "*/")
+		// closed by the FIRST "*/" after the opener
+		return len(raw) >= 4 && strings.Index(raw[2:], "*/") == len(raw)-4
 	}
 	return false
 }
